@@ -118,7 +118,7 @@ class CrashRun(seq_ops.Interp):
     def recovery_probe(self, path, g):
         db = orm.Database()
         ns = {'db': db, 'Required': orm.Required, 'Optional': orm.Optional, 'Set': orm.Set,
-              'PrimaryKey': orm.PrimaryKey, 'composite_key': orm.composite_key, 'int': int, 'str': str, 'float': float}
+              'PrimaryKey': orm.PrimaryKey, 'composite_key': orm.composite_key, 'int': int, 'str': str, 'float': float, 'Json': orm.Json}
         exec(self.schema.source(self.knobs), ns)
         g0 = simdb.ctx.g
         try:
